@@ -47,6 +47,7 @@ MODULES = {
     "Taxa": "torchtree.evolution.taxa",
     "UnRootedTreeModel": "torchtree.evolution.tree_model",
     "TimeTreeModel": "torchtree.evolution.tree_model",
+    "FlexibleTimeTreeModel": "torchtree.evolution.tree_model_flexible",
     "StrictClockModel": "torchtree.evolution.branch_model",
     "SimpleClockModel": "torchtree.evolution.branch_model",
     "Logger": "torchtree.core.logger",
@@ -83,10 +84,11 @@ def strip(obj):
 
 
 def has_decoration(obj):
+    """underscore keys, ignored objects, and explicit markers "ignore": <false> (which keep the object)"""
     if isinstance(obj, list):
         return any(_ignored(e) or has_decoration(e) for e in obj)
     if isinstance(obj, dict):
-        return any(k.startswith("_") or _ignored(v) or has_decoration(v) for k, v in obj.items())
+        return "ignore" in obj or any(k.startswith("_") or _ignored(v) or has_decoration(v) for k, v in obj.items())
     return False
 
 
@@ -292,10 +294,11 @@ class Interp:
             self._fault("unknown_type", "-", path)
             return None
         node = Node(cls=cls, id=id_, path=path, uses=[])
+        node["_first"] = first
         getattr(self, "_" + cls)(v, path, node)
         self.nodes.append(node)
         if first:
-            self.reg[id_] = node
+            self.reg[id_] = node  # (a class that announced itself early keeps that position)
         return node
 
     def _slot(self, v, key, path, node, many=False, optional=False):
@@ -419,6 +422,14 @@ class Interp:
 
     def _TimeTreeModel(self, v, path, node):
         self._slot(v, "taxa", path, node)
+        self._slot(v, "internal_heights", path, node)
+
+    def _FlexibleTimeTreeModel(self, v, path, node):
+        # documented in its from_json: the tree model enters the id table after its taxa and before its
+        # internal heights, so that the heights (a transformed parameter) may refer to the tree itself
+        self._slot(v, "taxa", path, node)
+        if node["_first"]:
+            self.reg[node["id"]] = node
         self._slot(v, "internal_heights", path, node)
 
     def _StrictClockModel(self, v, path, node):
@@ -579,7 +590,7 @@ def value(node):
         return {"attributes": dict(node["attributes"])}
     if cls == "Taxa":
         return {"names": [c["id"] for c in _use(node, "taxa")]}
-    if cls in ("UnRootedTreeModel", "TimeTreeModel"):
+    if cls in ("UnRootedTreeModel", "TimeTreeModel", "FlexibleTimeTreeModel"):
         return {"blens": _tree_lengths(node)}
     if cls == "StrictClockModel":
         tree = _use(node, "tree_model")
